@@ -344,6 +344,11 @@ def run_case(case: dict, parallel: int = 1) -> dict:
             verdict.setdefault("harness_notes", []).append(f"history {hi}: {last['outcome']}")
             continue
         second_outcomes[last["outcome"]] = second_outcomes.get(last["outcome"], 0) + 1
+        if last["outcome"] == "not_loadable":
+            # the type checker refused the package from this working directory (see known finding K-C08-1): that is the
+            # cwd dimension of C08, nothing the state of the output directory can cause; not judged here
+            verdict.setdefault("harness_notes", []).append(f"history {hi}: final run not loadable by the type checker from its cwd (C08 matter)")
+            continue
         first_step = hres[0]
         label = "rerun"
         if spec[0].get("faults"):
